@@ -518,6 +518,35 @@ func c07Backend(c *core.Ctx, base string) {
 		}
 		ch.(*file.FileBackend).Close()
 	})
+	// bursts above the 500 KiB batch threshold into a small maximum size: whatever the writer hands to the
+	// rotating file at a batch boundary, no line may be cut; line lengths are swept so that the
+	// boundaries fall at every offset inside a line and at different fill levels of the active file
+	for _, p0 := range []int{100, 104, 108, 112, 116, 120, 124, 128, 131, 137, 143, 149} {
+		p0 := p0
+		c.Case(fmt.Sprintf("backend/threshold-small/pad=%d", p0), func() {
+			dir := filepath.Join(base, fmt.Sprintf("thrs-%d", p0))
+			os.RemoveAll(dir)
+			os.MkdirAll(dir, 0755)
+			path := filepath.Join(dir, "ev.log")
+			ch, _ := c07NewBackend(path, 1024)
+			var seq []int
+			for i := 0; i < 3000; i++ {
+				seq = append(seq, p0)
+			}
+			stuck := false
+			sendAll(ch, seq, &stuck)
+			lab.Advance(3 * time.Second)
+			c.Count("executions", 1)
+			if stuck {
+				c.Violationf("C07:backend:send-blocked", "burst of 3000 events: Send blocked")
+			} else {
+				check(fmt.Sprintf("FileBackend maxsize=1024 burst of 3000 events with pads of %d bytes (500 KiB batches)", p0), path, 1024, seq)
+			}
+			ch.(*file.FileBackend).Close()
+			lab.Quiesce()
+			os.RemoveAll(dir)
+		})
+	}
 	// unwritable destinations: sending must not block forever
 	for _, kind := range []string{"missing-directory", "read-only-directory", "path-is-directory"} {
 		kind := kind
